@@ -317,7 +317,10 @@ Section Model.
 
   Variable ln_approx : N -> option N.       (* LnIntApproximation: None for 0 *)
 
-  Definition validateStateProof (c : vctx) (s : stateproof) (atRound : N) (msg : Msg) : spres unit :=
+  (* ValidateStateProof, parametric in the inner verification (errors of Verifier.Verify are
+     wrapped in errStateProofCrypto) *)
+  Definition validate_with (inner : verifier -> N -> Msg -> stateproof -> spres unit)
+             (c : vctx) (s : stateproof) (atRound : N) (msg : Msg) : spres unit :=
     if c_interval c =? 0 then SErr ENotEnabled
     else if negb (c_last c mod c_interval c =? 0) then SErr ENotMultiple
     else if sp_sw s <? acceptableWeight (c_interval c) (c_threshold c) (c_total c) (c_last c) atRound
@@ -327,7 +330,9 @@ Section Model.
       if ovf then SErr EOverflow
       else match ln_approx pw with
            | None => SErr ELnZero
-           | Some lnpw => verify (mkVerifier (c_strength c) lnpw (c_voters c)) (c_last c) msg s
+           | Some lnpw => inner (mkVerifier (c_strength c) lnpw (c_voters c)) (c_last c) msg s
            end.
+
+  Definition validateStateProof : vctx -> stateproof -> N -> Msg -> spres unit := validate_with verify.
 End Model.
 Unset Implicit Arguments.
